@@ -368,7 +368,22 @@ impl Debug for FixedSchema {
 }
 
 impl FixedSchema {
-    fn serialize_to_map<S>(&self, mut map: S::SerializeMap) -> Result<S::SerializeMap, S::Error>
+    fn serialize_to_map<S>(&self, map: S::SerializeMap) -> Result<S::SerializeMap, S::Error>
+    where
+        S: Serializer,
+    {
+        self.serialize_to_map_without::<S>(map, &[])
+    }
+
+    /// Like [`Self::serialize_to_map`] but leaves out the custom attributes named in `skip`.
+    ///
+    /// A logical type that writes some keys itself (decimal: `precision` and `scale`) uses this so
+    /// that the keys are not written twice.
+    fn serialize_to_map_without<S>(
+        &self,
+        mut map: S::SerializeMap,
+        skip: &[&str],
+    ) -> Result<S::SerializeMap, S::Error>
     where
         S: Serializer,
     {
@@ -387,7 +402,9 @@ impl FixedSchema {
         }
 
         for attr in &self.attributes {
-            map.serialize_entry(attr.0, attr.1)?;
+            if !skip.contains(&attr.0.as_str()) {
+                map.serialize_entry(attr.0, attr.1)?;
+            }
         }
 
         Ok(map)
@@ -962,7 +979,10 @@ impl Serialize for Schema {
                 let mut map = serializer.serialize_map(None)?;
                 match inner {
                     InnerDecimalSchema::Fixed(fixed_schema) => {
-                        map = fixed_schema.serialize_to_map::<S>(map)?;
+                        // The parser keeps `precision` and `scale` as custom attributes of the
+                        // fixed, they are written below
+                        map = fixed_schema
+                            .serialize_to_map_without::<S>(map, &["precision", "scale"])?;
                     }
                     InnerDecimalSchema::Bytes => {
                         map.serialize_entry("type", "bytes")?;
